@@ -265,6 +265,8 @@ pub(crate) struct Th {
     prio: i64,
     joiners: Vec<Tid>,
     finish_code: u8,
+    /// depth of sections through which a kill cannot unwind (extern "C" frames)
+    nokill: u32,
 }
 
 pub(crate) struct ProcCounters {
@@ -306,6 +308,7 @@ pub struct State {
     pct_changes: Vec<u64>,
     pct_low: i64,
     pct_streak: (Tid, u32),
+    pub(crate) frozen_by: Option<Tid>,
     panics: Vec<(u32, String)>,
 }
 
@@ -419,6 +422,11 @@ impl State {
                     fnv(&mut self.sched_fp, x);
                 }
             }
+            EvKind::Mark if tag.starts_with("fp:") => {
+                for x in [role, th, a, b, c] {
+                    fnv(&mut self.sched_fp, x);
+                }
+            }
             _ => {}
         }
         if let Some(mut o) = self.observer.take() {
@@ -485,6 +493,11 @@ impl State {
 
     /// Choose the next thread to run. `None` means every thread has finished.
     fn pick_next(&mut self, me: Option<Tid>) -> Option<Tid> {
+        if let (Some(f), Some(m)) = (self.frozen_by, me) {
+            if f == m && self.th[m].st == St::Runnable {
+                return Some(m);
+            }
+        }
         loop {
             let runnable: Vec<Tid> = (0..self.th.len()).filter(|&i| self.th[i].st == St::Runnable).collect();
             if runnable.is_empty() {
@@ -559,6 +572,7 @@ impl State {
             prio,
             joiners: Vec::new(),
             finish_code: 0,
+            nokill: 0,
         });
         self.th.len() - 1
     }
@@ -661,7 +675,7 @@ impl Shared {
 /// If the thread has been killed: mark it dead and unwind (unless a panic is already unwinding,
 /// in which case the thread just stops interacting with the simulation).
 pub(crate) fn check_kill(mut s: MutexGuard<'_, State>, me: Tid) {
-    if s.th[me].kill && !s.th[me].dead {
+    if s.th[me].kill && !s.th[me].dead && s.th[me].nokill == 0 {
         s.th[me].dead = true;
         drop(s);
         if !std::thread::panicking() {
@@ -678,9 +692,12 @@ pub(crate) fn yield_point(kind: EvKind, tag: &'static str, a: u64) -> bool {
         return false;
     }
     s.steps += 1;
-    s.now += s.cfg.step_cost_ns;
-    if s.cfg.step_cost_ns > 0 {
-        s.fire_timers();
+    let frozen = s.frozen_by == Some(me);
+    if !frozen {
+        s.now += s.cfg.step_cost_ns;
+        if s.cfg.step_cost_ns > 0 {
+            s.fire_timers();
+        }
     }
     if s.steps > s.cfg.max_steps && !s.ending {
         s.budget_exhausted = true;
@@ -706,16 +723,16 @@ pub(crate) fn yield_point(kind: EvKind, tag: &'static str, a: u64) -> bool {
             s.pct_streak = (me, 0);
         }
     }
-    if s.fault_hit(me, FaultClass::Kill).is_some() {
+    if !frozen && s.fault_hit(me, FaultClass::Kill).is_some() {
         let pid = s.th[me].pid;
         s.count("fault.kill");
         s.kill_process(pid, me);
     }
-    if s.th[me].kill {
+    if s.th[me].kill && s.th[me].nokill == 0 {
         check_kill(s, me);
         return false;
     }
-    if s.cfg.delay_ppm > 0 && !s.ending {
+    if s.cfg.delay_ppm > 0 && !s.ending && !frozen {
         let p = s.cfg.delay_ppm;
         if s.decide_p(K_DELAY, p) {
             let k = s.decide_n(K_DELAYMAG, DELAYS_NS.len() as u32) as usize;
@@ -731,7 +748,7 @@ pub(crate) fn yield_point(kind: EvKind, tag: &'static str, a: u64) -> bool {
     }
     s = sh.reschedule(s, me);
     s.th[me].timed_out = false;
-    if s.th[me].kill {
+    if s.th[me].kill && s.th[me].nokill == 0 {
         check_kill(s, me);
         return false;
     }
@@ -791,6 +808,55 @@ pub fn mark(tag: &'static str, a: u64, b: u64, c: u64) {
         return;
     }
     s.log(me, EvKind::Mark, tag, a, b, c);
+}
+
+/// Run `f` as one frozen simulator step: no other thread runs, virtual time stands still, no
+/// faults or stale loads are injected (used for paired observations).
+pub fn freeze<R>(f: impl FnOnce() -> R) -> R {
+    let Some((sh, me)) = me() else { return f() };
+    {
+        let mut s = sh.lock();
+        if s.th[me].dead {
+            drop(s);
+            return f();
+        }
+        s.frozen_by = Some(me);
+        let n = s.mem.newest_view();
+        mem::join(&mut s.th[me].cur, &n);
+    }
+    struct Unfreeze(Arc<Shared>);
+    impl Drop for Unfreeze {
+        fn drop(&mut self) {
+            self.0.lock().frozen_by = None;
+        }
+    }
+    let _g = Unfreeze(sh);
+    f()
+}
+
+/// Run `f` (code containing frames a panic cannot unwind through, e.g. `extern "C"` functions)
+/// with kills deferred until it returns.
+pub fn nokill<R>(f: impl FnOnce() -> R) -> R {
+    let Some((sh, me)) = me() else { return f() };
+    sh.lock().th[me].nokill += 1;
+    let r = f();
+    let mut s = sh.lock();
+    s.th[me].nokill -= 1;
+    if s.th[me].nokill == 0 {
+        check_kill(s, me);
+    }
+    r
+}
+
+/// Marker event carrying the hash of the leading identifier of `text` (e.g. an enum variant
+/// name taken from a `Debug` rendering); not a scheduling point.
+pub fn note(tag: &'static str, text: &str) {
+    let ident: &str = text.split(|c: char| !(c.is_alphanumeric() || c == '_')).next().unwrap_or("");
+    mark(tag, tag_hash(ident), 0, 0);
+}
+
+pub fn ident_hash(ident: &str) -> u64 {
+    tag_hash(ident)
 }
 
 /// Plain scheduling point for harness code.
@@ -1193,6 +1259,7 @@ pub fn run(spec: RunSpec) -> RunReport {
         pct_changes: Vec::new(),
         pct_low: 0,
         pct_streak: (usize::MAX, 0),
+        frozen_by: None,
         panics: Vec::new(),
     };
     if let Sched::Pct { depth, est_steps } = st.cfg.sched {
